@@ -84,7 +84,7 @@ from cylc.flow.exceptions import (
     CylcConfigError,
 )
 import cylc.flow.flags
-from cylc.flow.flow_mgr import FLOW_NONE, repr_flow_nums
+from cylc.flow.flow_mgr import FLOW_NEW, FLOW_NONE, repr_flow_nums
 from cylc.flow.id import TaskTokens
 from cylc.flow.log_level import log_level_to_verbosity
 from cylc.flow.parsec.exceptions import ParsecError
@@ -705,6 +705,13 @@ async def force_trigger_tasks(
         adjacency.setdefault((id_), set()).update(prereqs)
         for prereq in prereqs:
             adjacency.setdefault(prereq, set()).add(id_)
+
+    if flow == [FLOW_NEW] and adjacency:
+        # Start one new flow for the whole command, not one per group:
+        # separate flows would each run the tasks downstream of their group
+        # (which may include members of the other groups) again.
+        flow = [str(schd.pool.flow_mgr.get_flow(meta=flow_descr))]
+        flow_descr = None
 
     # trigger each group of tasks individually
     for group in get_connected_groups(adjacency):
